@@ -56,6 +56,10 @@ history = {
  'C01m':'after','C02m':'frozen-other','C03m':'after','C04m':'frozen','C05m':'frozen','C06m':'after','C07m':'frozen','C08m':'frozen-other',
  'C09m':'frozen-other','C10m':'frozen-other','C11m':'after','C13m':'frozen','C14m':'frozen','C15m':'frozen','C16m':'frozen','C17m':'frozen',
  'C18m':'after','C19m':'frozen','C20m':'after',
+ # round n: rules frozen at tag rules-frozen-for-round-n-seeds; first run in refs/round_n_first_run.txt (C12 claimed for the first time: four seeds)
+ 'C01n':'frozen','C02n':'frozen','C03n':'frozen','C04n':'frozen','C05n':'after','C06n':'frozen-other','C07n':'frozen','C08n':'frozen',
+ 'C09n':'after','C10n':'frozen','C11n':'frozen','C12a':'frozen','C12b':'frozen','C12c':'frozen','C12d':'frozen','C13n':'frozen','C14n':'after',
+ 'C15n':'frozen','C16n':'frozen','C17n':'frozen','C18n':'after','C19n':'frozen-other','C20n':'after',
 }
 seeds = sys.argv[1:] or sorted(d for d in os.listdir('seeded') if os.path.isdir('seeded/'+d))
 out = subprocess.run(['tools/run_seeds.sh'] + seeds, capture_output=True, text=True).stdout
